@@ -76,6 +76,9 @@ def hyp_search(
     import hypothesis
     from hypothesis import HealthCheck, Phase, given, settings
 
+    from .common import pin_hypothesis
+
+    pin_hypothesis()
     known = KnownFindings()
     ignore = set()
     phases = [Phase.generate, Phase.target]
